@@ -40,6 +40,7 @@ func init() {
 }
 
 func checkC06(c *Ctx) {
+	checkPublisherFanout(c) // every filtered subscription and clone below a publisher gets every event (complete, sequential fan-out)
 	newCacheModel(c).checkDoList() // the parent listing a (re)sync works from is a private snapshot
 	checkFilterEquality(c) // an equal-looking filter is skipped: equality must be sound
 	checkNotRunningErrors(c)
@@ -339,6 +340,7 @@ func checkC18(c *Ctx) {
 }
 
 func checkC17(c *Ctx) {
+	checkCombinators(c) // "built twice from the same arguments compares equal": the constructors are deterministic functions of their arguments
 	checkFilterEquality(c)
 	checkPodsFilters(c, true) // order-independence: sorted copy of the sources before building
 	c.floor("T-COVERS(Equals)", 11, "10 comparable filter types + enumeration")
@@ -457,6 +459,9 @@ func checkC02(c *Ctx) {
 }
 
 func checkC07(c *Ctx) {
+	for _, r := range typedRelsQuick(c) {
+		checkTypedRobustness(c, r) // the typed layer forwards every membership event of a Refilter (nothing de-duplicated away)
+	}
 	newCacheModel(c).checkDoList() // the parent listing a refilter works from is a private snapshot
 	checkNotRunningErrors(c)
 	checkRequestChannelPairing(c)
